@@ -15,6 +15,7 @@ TNext ==
        \/ e.a = "setup" /\ SetupOk(s, e.x) /\ s' = Setup(s, e.x)
        \/ e.a = "enqueue" /\ EnqueueOk(s, e.r, e.x, e.tag, e.t) /\ s' = Enqueue(s, e.r, e.tag, e.ans, e.t)
        \/ e.a = "confirm" /\ s' = Confirm(s, e.dst, e.tag, e.ok = 1, e.t)
+       \/ e.a = "cancel" /\ s' = CancelReq(s, e.r)
        \/ e.a = "finish" /\ FinishOk(s, e.r, e.o, e.t) /\ s' = Finish(s, e.r)
        \/ e.a = "end" /\ AllFinished(s) /\ e.pending = 0 /\ e.unfinished = <<>> /\ UNCHANGED s
   /\ l' = l + 1 /\ UNCHANGED tid
